@@ -24,7 +24,7 @@ Definition body_line_ok (keys : list string) (l : uline) : bool :=
   && negb (isspace (render_line l))
   && load_inert (render_line l) && expand_inert (render_line l).
 
-Definition text_ok (l : string) : bool := no_char (chr 60) l && no_char LF l.     (* no '<', one line *)
+Definition text_ok (l : string) : bool := no3 l && no_char LF l.     (* no "<<<", one line *)
 
 (* the expander stage of a block kind: its begin / end tags *)
 Definition stage_tags (k : ekind) : string * string :=
@@ -89,7 +89,7 @@ Definition cond_line_ok (l : uline) : bool :=
       && hasSpecificTag s (tagstr n)
       && String.eqb (removeDefault s) (render_line (drop_default l))
       && list_eqb (trans_tail s) (spec_absent l)
-      && forallb (no_char (chr 60)) (spec_absent l)
+      && forallb no3 (spec_absent l)
       && not_be2 pgt_tags s
   | None => false
   end.
@@ -121,7 +121,7 @@ Definition titem_ok (x : titem) : bool :=
 Definition item16_ok (it : item16) : bool :=
   match it with
   | Text l => text_ok l
-  | Raw s => no_char (chr 60) s && (count_char LF s <=? 1)%nat
+  | Raw s => no3 s && (count_char LF s <=? 1)%nat
   | Block k ib ie body =>
       block_lines_ok (stage_tags k) (ib ++ begin_line (block_word k))%string (ie ++ end_line (block_word k))%string
       && forallb (body_line_ok (keys_of k)) body
